@@ -7,6 +7,7 @@ import (
 	"net/http"
 	"net/http/httputil"
 	"net/url"
+	"strconv"
 	"strings"
 	"sync"
 	"time"
@@ -225,6 +226,16 @@ func sanitizeConnection(req *http.Request) {
 // newSigningHandler creates middleware that signs requests using the configured signing method.
 func newSigningHandler(handler http.Handler, config *UpstreamConfig, signer *RequestSigner) http.Handler {
 	return http.HandlerFunc(func(rw http.ResponseWriter, req *http.Request) {
+		// Content-Length is one of the signed headers, but the transport writes its own from
+		// req.ContentLength when it sends the request on: sign what the upstream will receive.
+		switch {
+		case req.ContentLength > 0:
+			req.Header.Set("Content-Length", strconv.FormatInt(req.ContentLength, 10))
+		case req.ContentLength == 0 && (req.Method == "POST" || req.Method == "PUT" || req.Method == "PATCH"):
+			req.Header.Set("Content-Length", "0")
+		default:
+			req.Header.Del("Content-Length")
+		}
 		if config.HMACAuth != nil {
 			config.HMACAuth.SignRequest(req)
 		}
